@@ -409,6 +409,20 @@ def run_world(ctx, world, configs, rng, n_scenarios, keys_per_ks):
             sc.observe_stepwise(rng.random() < 0.5, ks, pi, rng)
         for variant in ("no-query", "no-routing-key", "no-keyspace"):
             sc.observe_passthrough(rng.random() < 0.5, variant, kss[0][0], rng.randrange(len(world.pool)))
+        # ALTER KEYSPACE (or DROP + CREATE) through the real update path on the live metadata: every keyspace - all of them
+        # already routed - takes over its neighbour's replication settings; plans must follow the NEW settings
+        if len(kss) >= 2:
+            shift = rng.randrange(1, len(kss))
+            new_settings = [(kss[(i + shift) % len(kss)][1], kss[(i + shift) % len(kss)][2]) for i in range(len(kss))]
+            for i, (ks, _s, _o) in enumerate(list(kss)):
+                ns, no = new_settings[i]
+                world.alter_keyspace(ks, ns, no, drop_first=rng.random() < 0.25)
+                kss[i] = (ks, ns, no)
+            ctx.count("keyspace_replication_changes", len(kss))
+            for ks, s, o in kss:
+                for _k in range(2):
+                    ctx.count("plans_after_keyspace_replication_change")
+                    sc.observe(False, ks, s, o, rng.randrange(len(world.pool)), rng.random() < 0.5, "after-alter-keyspace")
         # the token map is rebuilt so that the next scenario starts from ring order again
         for ks, _s, _o in kss:
             world.metadata.token_map.tokens_to_hosts_by_ks.pop(ks, None)
@@ -470,6 +484,7 @@ def run(ctx):
                           "passthrough_plans_judged": 500, "shared_metadata_replans": 1000,
                           "plans_on_worlds_with_hosts_sharing_an_address": 3000,
                           "plans_where_a_tail_host_shares_the_address_of_a_prefix_replica": 1000,
+                          "plans_after_keyspace_replication_change": 3000,
                           "boundary_key_plans_judged": 5000, "empty_routing_key_plans_judged": 1500,
                           "empty_routing_key_plans_with_replicas": 1000, "plans_for_real_statement_objects": 4000,
                           "plans_with_routing_key_derived_from_a_bound_value": 2000,
